@@ -311,6 +311,53 @@ def _warm():
         pass            # a tree on which this raises is judged by the replay, case by case
 
 
+def _long_vectors():
+    """definitions on LONG vectors (chunking / fast paths that depend on the length): independent evaluation with
+    math.fsum, lengths that are not multiples of any usual block size.  Returns (clause, detail) mismatches."""
+    import math
+    M, lf = _libs()
+    eps = 1e-16
+    bad = []
+    for n in (2051, 4099, 70001):
+        i = np.arange(n, dtype=float)
+        y = ((7 * i) % 13) / 4.0 + 0.25
+        h = ((5 * i) % 11) / 4.0 + 0.5
+        h[-3:] = h[-3:] + 40.0                   # a few large errors at the very end (a short last block matters)
+        x = 2.0 * i + 1.0
+        coef = (0.5, 0.001)
+        lh = x * coef[1] + coef[0]
+        f = math.fsum
+        defs = {
+            "rmse": lambda a, b: math.sqrt(f((a - b) ** 2) / n),
+            "rmsle": lambda a, b: math.sqrt(f((np.log(a + 1) - np.log(b + 1)) ** 2) / n),
+            "rmspe": lambda a, b: math.sqrt(f(((a - b) / (a + eps)) ** 2) / n),
+            "rpd": lambda a, b: f(np.abs((a - b) / (np.maximum(a, b) + eps))) / n,
+            "smape": lambda a, b: f(2.0 * np.abs(b - a) / (np.abs(a) + np.abs(b) + eps)) / n,
+            "residuals": lambda a, b: f((a - b) ** 2),
+            "r2": lambda a, b: 1.0 - f((a - b) ** 2) / f((a - f(a) / n) ** 2),
+        }
+        for name, d in defs.items():
+            exp = d(y, h)
+            try:
+                got = float(getattr(M, name)(y.copy(), h.copy()))
+                if not numeric.close(got, exp, rel=1e-9, ab=1e-12):
+                    bad.append((_clause("equals-definition", name), {"fn": "metrics." + name, "n": n, "got": got, "expected": exp}))
+            except Exception as ex:
+                bad.append((_clause("equals-definition", name), {"fn": "metrics." + name, "n": n, "raised": repr(ex)[:200]}))
+            wname = {"residuals": "linear_residuals", "r2": "linear_r2"}.get(name, name)
+            expw = d(y, lh)
+            pts = np.column_stack([x, y])
+            for label, call in ((wname, lambda: getattr(lf, wname)(x.copy(), y.copy(), coef)),
+                                (wname + "_points", lambda: getattr(lf, wname + "_points")(pts.copy(), coef))):
+                try:
+                    got = float(call())
+                    if not numeric.close(got, expw, rel=1e-9, ab=1e-12):
+                        bad.append((_clause("wrapper-equals-metric", name), {"fn": "linear_fit." + label, "n": n, "got": got, "expected": expw}))
+                except Exception as ex:
+                    bad.append((_clause("wrapper-equals-metric", name), {"fn": "linear_fit." + label, "n": n, "raised": repr(ex)[:200]}))
+    return bad
+
+
 def run(ctx):
     ctx.rule = ("TLC enumerates complete small domains: all vector pairs (y, y_hat) with entries 0..V and length 1..N; "
                 "all lines b in 0..B, m in {-2,-1,-1/2,0,1/2,1,2} over strictly increasing integer x with integer y; "
@@ -358,6 +405,14 @@ def run(ctx):
             ctx.violation(clause, {"kind": "G", "behaviour": b}, detail)
     ctx.traces += len(beh)
     ctx.extra["behaviours_by_kind"] = kinds
+    # long vectors (not generated by TLC: the definitions are evaluated by the harness with math.fsum)
+    lv = _long_vectors()
+    ctx.extra["long_vector_lengths"] = [2051, 4099, 70001]
+    ctx.count(("long-vectors",), True)
+    for clause, detail in lv[:6]:
+        ctx.violation(clause, {"kind": "long"}, detail)
+    ctx.assumptions.append("long vectors (n = 2051, 4099, 70001) are compared with an independent math.fsum evaluation of the "
+                           "same definitions (TLC does not generate these cases)")
     for want in (lambda b: b["kind"] == "pair" and b["y"] == [0, 2] and b["h"] == [[1, 1], [3, 1]],
                  lambda b: b["kind"] == "line" and len(b["x"]) == 2 and b["m"] == [1, 2] and b["y"] == [0, 1],
                  lambda b: b["kind"] == "fit" and b["x"] == [0, 1, 2] and b["y"] == [0, 2, 1]):
@@ -368,5 +423,9 @@ def run(ctx):
 
 def replay(ctx, obj):
     case = obj["case"]
+    if case.get("kind") == "long":
+        for clause, detail in _long_vectors():
+            ctx.violation(clause, case, detail)
+        return
     for clause, detail in _check(case["behaviour"]):
         ctx.violation(clause, case, detail)
